@@ -79,3 +79,9 @@ claim('C05', 'c05_protocol.c',
       'returns a distinct object of the same class with equal value and own storage, and that mutating or deleting either object leaves the other valid and unchanged (freed-object '
       'dereferences are CBMC failures); comp is reflexive, antisymmetric and transitive with NULL first and equality only for equal values (symbolic bytes / element values / 63-bit addresses).',
       'DESIGN.md section 4, C05')
+claim('C06', 'c06_ownership.c',
+      'CBMC ownership check: per-class single-call scenarios from directly built valid states under --memory-leak-check, built-in double-free/freed-object checks and an element deletion counter; the C01/C07 step harnesses re-run under the leak check',
+      'For each container flavour and every scenario (delete non-empty incl. placeholders, done()+reuse, removal with hand-back at every position, dup, to_array, iterator, key/value/pair lists, '
+      'overwriting and adding map entries) and for new();del() of every class, substring, re-evaluation and setter scenarios, the solver shows that once the caller has deleted what it '
+      'was handed no allocation is left, nothing is freed twice or used after free, a container never frees what it handed back, and a map neither frees nor keeps the key and value of the caller.',
+      'DESIGN.md section 4, C06')
